@@ -530,6 +530,43 @@ func blankParams(n int) {
 	hook.Ev("blank", n, k, f(true), gblank)
 }
 
+// unnamed results of a call that never executes return (its panic is recovered by a deferred
+// call) are zero, whatever an earlier call left in the recycled frame
+func dirty(n int) int {
+	a, b, c := n*3+1, n*5+2, n*7+3
+	return a + b + c
+}
+
+func guardedInt(p bool) int {
+	defer func() {
+		recover()
+	}()
+	if p {
+		panic("guarded")
+	}
+	return 7
+}
+
+func guardedPair(p bool, q int) (uint8, bool, float64) {
+	defer func() {
+		recover()
+	}()
+	k := q * 3
+	if p {
+		panic(k)
+	}
+	return 5, true, 2.5
+}
+
+func unnamedZero(n int) {
+	d := dirty(n)
+	g1 := guardedInt(n%2 == 0)
+	d += dirty(n + 1)
+	u, b, f := guardedPair(n%3 != 0, n)
+	g2 := guardedInt(true)
+	hook.Ev("unnamed-zero", n, d, g1, u, b, f, g2)
+}
+
 func Main() {
 	gfuncs, gsetters, gptrs, gsptrs = nil, nil, nil, nil
 	gfptrs, gbptrs = nil, nil
@@ -542,7 +579,9 @@ func Main() {
 	}
 	steps := 6 + hook.Choose(14)
 	for s := 0; s < steps; s++ {
-		switch hook.Choose(27) {
+		switch hook.Choose(28) {
+		case 27:
+			unnamedZero(hook.Choose(9))
 		case 26:
 			blankParams(hook.Choose(9))
 		case 25:
